@@ -156,6 +156,13 @@ class Tx:
 
     select_and_fetchone = execute_and_fetchone
 
+    async def select_and_fetchall(self, sql, args=None, query_name=None):
+        cur = await self._run('select_and_fetchall', sql, args)
+        for row in cur.fetchall() if cur is not None else []:
+            yield dict(row)
+
+    execute_and_fetchall = select_and_fetchall
+
     async def execute_insertone(self, sql, args=None, query_name=None):
         cur = await self._run('execute_insertone', sql, args)
         return cur.lastrowid if cur is not None else None
@@ -252,6 +259,18 @@ def exec_defs(path, names, ns=NS, missing_ok=False):
     exec(compile(ast.Module(body=body, type_ignores=[]), path, 'exec'), ns)
 
 
+def exec_module_literals(path, ns=NS):
+    """module-level NAME = <literal> bindings of the real module (constants the extracted functions may refer to); names the
+    harness already provides are left alone"""
+    for n in ast.parse(open(path).read()).body:
+        if isinstance(n, ast.Assign) and len(n.targets) == 1 and isinstance(n.targets[0], ast.Name) and n.targets[0].id not in ns:
+            try:
+                ns[n.targets[0].id] = ast.literal_eval(n.value)
+            except (ValueError, SyntaxError):
+                pass
+
+
+exec_module_literals(FE_PY)
 exec_defs(WC_PY, ['web_security_header_generator', 'web_security_headers', 'web_security_headers_swagger'])
 exec_defs(UT_PY, ['add_metadata_to_request'])
 WRAPPER_NAMES = ['authenticated_developers_or_auth_only', 'catch_ui_error_in_dev', '_user_can_access', 'billing_project_users_only', 'deprecated']
@@ -292,6 +311,9 @@ def finding(what, inp, observed, required):
 
 
 # ---------------------------------------------------------------------------------------------- scenarios
+# user names: an ordinary one, the auth service, and names that only LOOK like it (pieces of it, the empty name, other case,
+# padded) - "the auth service" means the name is exactly 'auth'
+USERNAMES = ('mallory', 'auth', 'a', 'h', 'au', 'th', 'aut', 'uth', 'Auth', 'AUTH', 'auth ', ' auth', 'auth2', 'xauth', 'authx', '')
 async def scenario_wrappers():
     EFFECTS = []
 
@@ -318,7 +340,7 @@ async def scenario_wrappers():
     cases = []
     for flag in (0, 1, False, True, None, 2):
         for state in ('active', 'inactive'):
-            for name in ('mallory', 'auth'):
+            for name in USERNAMES:
                 cases.append(user(name, flag, state))
     FakeAuth.USERS = {'tok%d' % i: u for i, u in enumerate(cases)}
     for wname, h in hs.items():
@@ -501,6 +523,153 @@ async def scenario_routes():
     return None
 
 
+def load_funcs(names, ns=NS):
+    """exec the named module-level functions of the real front end with their real decorators except the route registration"""
+    src, defs = top_defs(FE_PY)
+    body = []
+    for n in names:
+        if n in defs:
+            d = defs[n]
+            d.decorator_list = [x for x in d.decorator_list if not (isinstance(x, ast.Call) and isinstance(x.func, ast.Attribute) and isinstance(x.func.value, ast.Name) and x.func.value.id == 'routes')]
+            body.append(d)
+    exec(compile(ast.Module(body=body, type_ignores=[]), FE_PY, 'exec'), ns)
+    return [d.name for d in body]
+
+
+async def scenario_billing_listing():
+    """the handlers that list billing projects for every authenticated user: the real handler runs, the listing helper of
+    batch/utils.py is a recorder; without a user name it would answer every project"""
+    ASKED = []
+
+    async def listing(db, user=None, billing_project=None):
+        ASKED.append({'user': user, 'billing_project': billing_project})
+        return [{'billing_project': 'proj-m', 'status': 'open', 'users': ['mallory'], 'limit': None, 'accrued_cost': 0}]
+
+    async def render_template(*a, **k):
+        return web.Response()
+
+    ns = dict(NS, query_billing_projects_with_cost=listing, query_billing_projects_without_cost=listing, render_template=render_template, cost_str=str)
+    names = load_funcs(payload.get('handlers') or ['get_billing_projects', 'get_billing_project', 'ui_get_billing_limits'], ns)
+    cases = [user(name, flag) for flag in (0, False, None, 1, True) for name in USERNAMES]
+    FakeAuth.USERS = {'tok%d' % i: u for i, u in enumerate(cases)}
+    db = Database()
+    for hname in names:
+        for tok, u in FakeAuth.USERS.items():
+            del ASKED[:]
+            st = await call(ns[hname], 'GET', '/api/v1alpha/billing_projects', {'billing_project': 'proj-m'}, tok, db)
+            privileged = bool(u['is_developer']) or u['username'] == 'auth'
+            for a in ASKED:
+                if not privileged and a['user'] != u['username']:
+                    return finding('%s lists billing projects without restricting them to the caller' % hname, {'handler': hname, 'userdata': u}, {'status': st, 'listing_helper_called_with': a}, 'user == %r (the caller is neither a developer nor the auth service)' % u['username'])
+    return None
+
+
+class _Spec:
+    """stand-in for batch.batch_format_version.BatchFormatVersion as far as job_tasks_from_spec / the log store look at it"""
+
+    def __init__(self, v):
+        self.format_version = v
+
+    def get_spec_has_input_files(self, spec):
+        return bool(spec.get('input_files'))
+
+    def get_spec_has_output_files(self, spec):
+        return bool(spec.get('output_files'))
+
+
+async def scenario_job_log():
+    """GET .../batches/{batch_id}/jobs/{job_id}/log/{container} on the real get_job_container_log / _get_job_container_log /
+    _get_job_log chain: whatever the container segment says, the worker / the log store is only asked for the checked batch, the
+    requested job and one of the job's own containers"""
+    import json as _json
+
+    ASKED = []
+
+    class Session:
+        async def get_read(self, url, **kw):
+            ASKED.append(('worker', url))
+            return b'log'
+
+    class Store:
+        async def read_log_file(self, fmt, batch_id, job_id, attempt_id, task):
+            ASKED.append(('store', batch_id, job_id, task))
+            return b'log'
+
+    class JobDB:
+        def __init__(self, state, spec):
+            self.state, self.spec = state, spec
+
+        async def select_and_fetchone(self, sql, args=None, query_name=None):
+            return {'state': self.state, 'spec': _json.dumps(self.spec), 'ip_address': '10.0.0.7', 'format_version': 7, 'attempt_id': 'aaaaaa', 'last_cancelled_attempt_id': None}
+
+    ns = dict(NS, BatchFormatVersion=_Spec, json=_json, complete_states=('Cancelled', 'Error', 'Failed', 'Success'), aiohttp=__import__('aiohttp'))
+    names = ['job_tasks_from_spec', 'has_resource_available', 'attempt_id_from_spec', '_get_job_record', '_get_job_container_log_from_worker', '_read_job_container_log_from_cloud_storage', '_get_job_container_log', '_get_job_log', 'get_job_container_log']
+    got = load_funcs(names, ns)
+    if set(got) != set(names):
+        return {'confirmed': False, 'error': 'log chain not found: %r' % sorted(set(names) - set(got))}
+    specs = [{'input_files': [], 'output_files': []}, {'input_files': [1], 'output_files': []}, {'input_files': [1], 'output_files': [1]}, {'input_files': [], 'output_files': [1], 'name': '../../2/jobs/1/log/main', 'container': '..', 'task': '../main'}]
+    containers = ['main', 'input', 'output', 'bogus', '', '../../../../batches/2/jobs/1/log/main', 'main/../../../../2/jobs/1/log/main', '..', 'main/']
+    for state in ('Running', 'Success', 'Failed', 'Pending', 'Cancelled'):
+        for spec in specs:
+            tasks = ns['job_tasks_from_spec']({'format_version': 7, 'spec': _json.dumps(spec)})
+            if not set(tasks) <= {'input', 'main', 'output'}:
+                return finding('job_tasks_from_spec answers a container name other than input / main / output (the name becomes a path segment of the worker URL and of the log-store path)', {'record': {'format_version': 7, 'spec': spec}}, {'containers': tasks}, "a subset of ['input', 'main', 'output']")
+            for container in containers:
+                del ASKED[:]
+                app = make_app(JobDB(state, spec))
+                app['client_session'] = Session()
+                app['file_store'] = Store()
+                request = make_mocked_request('GET', '/api/v1alpha/batches/1/jobs/7/log/x', match_info={'batch_id': '1', 'job_id': '7', 'container': container}, app=app)
+                try:
+                    resp = await ns['get_job_container_log'](request, 1)
+                    st = getattr(resp, 'status', 200)
+                except web.HTTPException as e:
+                    st = e.status
+                except Exception as e:  # pylint: disable=broad-except
+                    st = 'exception %s' % type(e).__name__
+                for a in ASKED:
+                    ok = (a[1] == 'http://10.0.0.7:5000/api/v1alpha/batches/1/jobs/7/log/%s' % container and container in tasks) if a[0] == 'worker' else (a[1:3] == (1, 7) and a[3] in tasks)
+                    if not ok:
+                        return finding('get_job_container_log fetches something else than the log of a container of the requested job of the checked batch', {'route': 'GET /api/v1alpha/batches/1/jobs/7/log/{container}', 'container': container, 'job_state': state, 'containers_of_the_job': tasks, 'caller': 'any member of the billing project of batch 1'}, {'status': st, 'asked': a}, 'HTTP 400 (unknown container), nothing fetched')
+    return None
+
+
+JOBS_SCHEMA = """
+CREATE TABLE jobs (batch_id INTEGER, job_id INTEGER, state TEXT, PRIMARY KEY (batch_id, job_id));
+CREATE TABLE job_attributes (batch_id INTEGER, job_id INTEGER, `key` TEXT, `value` TEXT);
+CREATE TABLE resources (resource_id INTEGER PRIMARY KEY, resource TEXT, rate REAL);
+CREATE TABLE aggregated_job_resources_v3 (batch_id INTEGER, job_id INTEGER, resource_id INTEGER, `usage` INTEGER);
+INSERT INTO resources VALUES (1, 'compute/n1-preemptible/1', 0.5);
+"""
+
+
+async def scenario_billing_jobs():
+    """GET .../batches/{batch_id}/jobs/resources on the real _query_batch_jobs_for_billing, the statements run by sqlite: a
+    member of batch 1's billing project pages through batch 1 and must only ever be shown jobs of batch 1"""
+    import collections as _collections
+
+    ns = dict(NS, collections=_collections)
+    if load_funcs(['_query_batch_jobs_for_billing'], ns) != ['_query_batch_jobs_for_billing']:
+        return {'confirmed': False, 'error': '_query_batch_jobs_for_billing not found'}
+    db = Database()
+    db.conn.executescript(JOBS_SCHEMA)
+    for b, n in ((1, 5), (2, 4)):
+        for j in range(1, n + 1):
+            db.conn.execute('INSERT INTO jobs VALUES (?, ?, ?)', (b, j, 'Success'))
+            db.conn.execute("INSERT INTO job_attributes VALUES (?, ?, 'name', ?)", (b, j, 'b%d-j%d' % (b, j)))
+            db.conn.execute('INSERT INTO aggregated_job_resources_v3 VALUES (?, ?, 1, ?)', (b, j, 100 * b))
+    for q in ('', '?limit=2', '?last_job_id=0', '?last_job_id=2', '?last_job_id=5', '?last_job_id=2&limit=3', '?last_job_id=7&limit=10000'):
+        request = make_mocked_request('GET', '/api/v1alpha/batches/1/jobs/resources' + q, match_info={'batch_id': '1'}, app=make_app(db))
+        try:
+            jobs, _ = await ns['_query_batch_jobs_for_billing'](request, 1)
+        except web.HTTPException:
+            continue
+        foreign = [{'batch_id': j['batch_id'], 'job_id': j['job_id'], 'user': j.get('user'), 'attributes': j.get('attributes')} for j in jobs if j['batch_id'] != 1]
+        if foreign:
+            return finding('_query_batch_jobs_for_billing answers jobs of a batch other than the one the access check was made for', {'route': 'GET /api/v1alpha/batches/1/jobs/resources' + q, 'caller': 'alice (member of proj-a, the billing project of batch 1; not of proj-m)', 'batches': '1 in proj-a (5 jobs), 2 in proj-m (4 jobs)'}, {'jobs_of_other_batches': foreign[:3]}, 'only jobs of batch 1')
+    return None
+
+
 async def scenario_token_replay_ids():
     return await scenario_token_replay(ids_only=True)
 
@@ -509,12 +678,12 @@ async def scenario_update():
     return (await scenario_owner()) or (await scenario_token_replay())
 
 
-SCENARIOS = {'update': scenario_update, 'token-replay-ids': scenario_token_replay_ids, 'wrappers': scenario_wrappers, 'membership': scenario_membership, 'owner': scenario_owner, 'token-replay': scenario_token_replay, 'routes': scenario_routes}
+SCENARIOS = {'job-log': scenario_job_log, 'billing-jobs': scenario_billing_jobs, 'billing-listing': scenario_billing_listing, 'update': scenario_update, 'token-replay-ids': scenario_token_replay_ids, 'wrappers': scenario_wrappers, 'membership': scenario_membership, 'owner': scenario_owner, 'token-replay': scenario_token_replay, 'routes': scenario_routes}
 
 
 async def main():
     want = payload.get('scenario', 'all')
-    order = [want] if want in SCENARIOS else ['wrappers', 'membership', 'owner', 'routes']
+    order = [want] if want in SCENARIOS else ['wrappers', 'membership', 'owner', 'routes', 'billing-listing', 'job-log', 'billing-jobs']
     ran = []
     for s in order:
         try:
